@@ -252,7 +252,7 @@ func probesFor(rng interface {
 func TestCheck(t *testing.T) {
 	r := mon.Start(t, "C03")
 	defer r.Finish()
-	r.Note("rule", "per bridge (fresh identity and DRBG seed; IAT mode and bias vary): a positive control (valid reference handshake -> the server answers), then probes of every class: silence, random strings of lengths around every limit (1..20000), a valid hello truncated at every field boundary +-1 / extended by trailing bytes / with one bit flipped in representative, padding, mark, MAC, wrong hour (+-2, +-3, other decimal renderings), wrong B, wrong NODEID, byte-identical replay of the accepted hello, low-order-point representatives with valid mark+MAC, a valid hello completed after 31 s, mark beyond 8192, padding below the minimum, probes that disconnect first; each under a PRNG-chosen chunking {all,1,64,PRNG}, optionally with continuing garbage every second and a bounded 4 KiB window. Non-trivial = a probe that ran to the server's close (or its own disconnect); distinct = (bridge, class, index).")
+	r.Note("rule", "per bridge (fresh identity and DRBG seed; IAT mode and bias vary): a positive control (valid reference handshake -> the server answers), then probes of every class: silence, random strings of lengths around every limit (1..20000), a valid hello truncated at every field boundary +-1 / extended by trailing bytes / with one bit flipped in representative, padding, mark, MAC, wrong hour (+-2, +-3, other decimal renderings), wrong B, wrong NODEID, byte-identical replay of the accepted hello (at once, and for hellos stamped hour -1/0/+1 again 1 s, 61 min, 2 h 5 min, 2 h 58 min, 3 h 1 min and 5 h after they were accepted), low-order-point representatives with valid mark+MAC, a valid hello completed after 31 s, mark beyond 8192, padding below the minimum, probes that disconnect first; each under a PRNG-chosen chunking {all,1,64,PRNG}, optionally with continuing garbage every second and a bounded 4 KiB window. Non-trivial = a probe that ran to the server's close (or its own disconnect); distinct = (bridge, class, index).")
 	dir := o4.StateDir("c03")
 	nBridges := r.Pick(64, 1024)
 	for bi := 0; bi < nBridges; bi++ {
@@ -318,6 +318,53 @@ func TestCheck(t *testing.T) {
 				pr.ps = pr.mk()
 				res := o4.RunProbe(c, sf, pr.ps)
 				judge(c, r, sf, b, bi, pi, pr, res, &D, &Dclass)
+			}
+			// replays after a while: hellos stamped with the previous, the current and
+			// the next hour of the server clock are accepted once each, then replayed
+			// 1 s .. 5 h later.  Whenever that is, the server must stay silent: the
+			// hello is either still inside its window (a replay) or outside it.
+			if r.Thorough() || bi%2 == 0 {
+				rr := o4.RandReader{R: rng}
+				delays := []time.Duration{time.Second, 61 * time.Minute, 2*time.Hour + 5*time.Minute, 2*time.Hour + 58*time.Minute, 3*time.Hour + time.Minute, 5 * time.Hour}
+				type pres struct {
+					hello []byte
+					k     int64
+					at    time.Time
+				}
+				var ps []pres
+				t0 := time.Now()
+				for _, k := range []int64{1, 0, -1} {
+					for range delays {
+						key := ref.NewKeypair(rr)
+						pad := make([]byte, ref.ClientMinPad+rng.IntN(500))
+						io.ReadFull(rr, pad)
+						hh := ref.BuildClientHello(b.Ref, key, pad, o4.Hours(k))
+						first := o4.RunProbe(c, sf, o4.ProbeScript{Segments: [][]byte{hh.Bytes}, CloseAfter: -1})
+						if !first.Accepted {
+							c.Violation(fmt.Sprintf("control/valid-handshake-refused/hour%+d", k), "a fresh valid hello stamped with an hour inside the window was refused", nil)
+							continue
+						}
+						first.Conn.Close()
+						first.Client.Close()
+						r.Count("control_valid_handshake_answered", 1)
+						ps = append(ps, pres{hh.Bytes, k, t0})
+					}
+				}
+				for di, d := range delays {
+					if w := time.Until(t0.Add(d)); w > 0 {
+						time.Sleep(w)
+					}
+					for i, p := range ps {
+						if i%len(delays) != di {
+							continue
+						}
+						pr := probe{class: fmt.Sprintf("replay-later/hour%+d/after-%v", p.k, d)}
+						pr.ps = o4.ProbeScript{Segments: [][]byte{p.hello}, CloseAfter: -1}
+						res := o4.RunProbe(c, sf, pr.ps)
+						judge(c, r, sf, b, bi, 1000+i, pr, res, &D, &Dclass)
+						r.Count("replays_after_a_while", 1)
+					}
+				}
 			}
 			if D >= 0 {
 				r.Distinct("distinct_D", D.String())
